@@ -32,6 +32,16 @@ pub trait System: Sync {
     fn step(&self, s: &Self::State, a: usize) -> Step<Self::State>;
     /// Successors outside the bounds are executed and checked but not expanded.
     fn within_bounds(&self, s: &Self::State) -> bool;
+    /// Safety net against hidden, model-invisible counters that grow without bound under a faulty implementation:
+    /// the search stops (reported as capped) at this depth. On the current tree every run reaches its fixed
+    /// point well below it (deepest: 39).
+    fn max_depth(&self) -> u32 {
+        100
+    }
+    /// Second, more expensive bound, evaluated only for successors that passed `within_bounds` and are not yet known.
+    fn within_bounds_new(&self, _s: &Self::State) -> bool {
+        true
+    }
     fn action_json(&self, a: usize) -> Value;
     /// Description used in replay files so that the run can be rebuilt.
     fn config_json(&self) -> Value;
@@ -167,7 +177,11 @@ pub fn bfs<Y: System>(sys: &Y, max_states: u64, deadline: &(dyn Fn() -> bool + S
                                         if !sys.within_bounds(&n) {
                                             o.cut += 1;
                                         } else if !seen_ref.contains_key(&n) {
-                                            o.cands.push((*id, a as u32, n));
+                                            if sys.within_bounds_new(&n) {
+                                                o.cands.push((*id, a as u32, n));
+                                            } else {
+                                                o.cut += 1;
+                                            }
                                         }
                                     }
                                 }
@@ -235,6 +249,11 @@ pub fn bfs<Y: System>(sys: &Y, max_states: u64, deadline: &(dyn Fn() -> bool + S
         }
         frontier = next_frontier;
         depth += 1;
+        if depth >= sys.max_depth() && !frontier.is_empty() {
+            stats.capped = Some(format!("depth cap {} reached with {} frontier states unexpanded (a state space that keeps growing linearly with depth means a hidden counter is running away)", depth, frontier.len()));
+            stats.levels.push(frontier.len() as u64);
+            break;
+        }
     }
     stats.depth = depth;
     let mut violations = vec![];
